@@ -20,11 +20,10 @@ theorem parse_total_closed (db : CodecDB) (given : Option Bytes) (b : Bytes) (c 
 /-- **Acceptance ⇒ well-formedness, and nothing is mis-read.**  If the loader returns a file then the bytes are a
     legal MO file of some well-formed catalog `cat` (every descriptor and string inside the file, NUL after each
     string, NUL structure consistent, keys in order) and the returned entries are exactly the decoding of that
-    catalog's keys and values (`expectedAsCoded`: field by field, in file order, context/msgid exchanged as
-    recorded under C08). -/
+    catalog's keys and values (`expected`: field by field, in file order). -/
 theorem parse_sound (db : CodecDB) (given : Option Bytes) (b : Bytes) (f : MoFile) (h : parse db given b = .ok f) :
     ∃ cat, Encodes b cat f.possibleHiddenStrings ∧ (∀ e ∈ cat, e.WF) ∧
-      expectedAsCoded db given cat f.possibleHiddenStrings = .ok f := by
+      expected db given cat f.possibleHiddenStrings = .ok f := by
   rcases parse_cases db given b with ⟨x, hx⟩ | hx | ⟨f', cat, hf, henc, hwf⟩
   · rw [hx] at h; cases h
   · rw [hx] at h; cases h
@@ -35,7 +34,7 @@ theorem parse_sound (db : CodecDB) (given : Option Bytes) (b : Bytes) (f : MoFil
 theorem parse_ok_iff (db : CodecDB) (given : Option Bytes) (b : Bytes) (f : MoFile) :
     parse db given b = .ok f ↔
       ∃ cat, Encodes b cat f.possibleHiddenStrings ∧ (∀ e ∈ cat, e.WF) ∧
-        expectedAsCoded db given cat f.possibleHiddenStrings = .ok f := by
+        expected db given cat f.possibleHiddenStrings = .ok f := by
   constructor
   · exact parse_sound db given b f
   · rintro ⟨cat, henc, hwf, hexp⟩
@@ -64,8 +63,8 @@ theorem returned_bytes_present (db : CodecDB) (given : Option Bytes) (b : Bytes)
   obtain ⟨cat, henc, hwf, hexp⟩ := parse_sound db given b f h
   have henc' := henc
   obtain ⟨be, major, minor, ko, to, hm, _, _, _, hn, _, hko, hto, hE, _⟩ := henc
-  unfold expectedAsCoded at hexp
-  cases hd : decodeEntries db (charsetOf db given cat) (cat.map swapCtxt) with
+  unfold expected at hexp
+  cases hd : decodeEntries db (charsetOf db given cat) cat with
   | error x => rw [hd] at hexp; cases hexp
   | ok ds =>
     rw [hd] at hexp
@@ -80,7 +79,6 @@ theorem returned_bytes_present (db : CodecDB) (given : Option Bytes) (b : Bytes)
     refine ⟨by simpa using hS.1, by simpa using hS.2, ?_⟩
     rw [buildEntry_spec db _ (hwf _ (List.getElem_mem hic))]
     have := hi i (by simpa using hic) (by rw [← hfe]; exact h2)
-    simp only [List.getElem_map] at this
     rw [this]
     simp [hfe]
 
@@ -234,13 +232,13 @@ theorem decodeEntries_not_syntax (db : CodecDB) (cs : Bytes) (l : List CatEntry)
       | error y => rw [h''] at ih; simp; exact fun e => ih (by rw [e])
     · simp [decodeEntries, hd]
 
-theorem expectedAsCoded_not_syntax (db : CodecDB) (given : Option Bytes) (cat : List CatEntry) (hidden : Bool) (x : SynErr) :
-    expectedAsCoded db given cat hidden ≠ .error (.syntax x) := by
-  unfold expectedAsCoded
-  cases h : decodeEntries db (charsetOf db given cat) (cat.map swapCtxt) with
+theorem expected_not_syntax (db : CodecDB) (given : Option Bytes) (cat : List CatEntry) (hidden : Bool) (x : SynErr) :
+    expected db given cat hidden ≠ .error (.syntax x) := by
+  unfold expected
+  cases h : decodeEntries db (charsetOf db given cat) cat with
   | ok _ => simp
   | error y =>
-    have := decodeEntries_not_syntax db (charsetOf db given cat) (cat.map swapCtxt) x
+    have := decodeEntries_not_syntax db (charsetOf db given cat) cat x
     rw [h] at this; simp; exact fun e => this (by rw [e])
 
 /-- the clauses together, at the checker: any of the defects ⇒ `invalid-mo-file`, and the method returns -/
@@ -263,16 +261,16 @@ theorem defect_reported (db : CodecDB) (hl : Latin1OK db) (b : Bytes)
 theorem checker_accepts_wellformed (db : CodecDB) (hl : Latin1OK db) (b : Bytes) (cat : List CatEntry) (hidden : Bool)
     (h : Encodes b cat hidden) (hwf : ∀ e ∈ cat, e.WF) :
     (checkerLoad db b).file.isSome ∧ (∀ x, Tag.invalidMoFile x ∉ (checkerLoad db b).tags) ∧
-    (Tag.brokenEncoding ∈ (checkerLoad db b).tags ↔ expectedAsCoded db none cat hidden = .error .decode) := by
+    (Tag.brokenEncoding ∈ (checkerLoad db b).tags ↔ expected db none cat hidden = .error .decode) := by
   have hc := parse_complete db none h hwf
   have hc' := parse_complete db (some latin1Name) h hwf
   rcases checker_cases db hl b with ⟨f, hf, hl'⟩ | ⟨x, hx, _⟩ | ⟨hd, ⟨f, hf, hl'⟩ | ⟨x, hx, _⟩⟩
   · rw [hl']; refine ⟨rfl, by simp, ?_⟩
     rw [← hc, hf]; simp
-  · rw [hc] at hx; exact absurd hx (expectedAsCoded_not_syntax db none cat hidden x)
+  · rw [hc] at hx; exact absurd hx (expected_not_syntax db none cat hidden x)
   · rw [hl']; refine ⟨rfl, by simp, ?_⟩
     rw [← hc, hd]; simp
-  · rw [hc'] at hx; exact absurd hx (expectedAsCoded_not_syntax db _ cat hidden x)
+  · rw [hc'] at hx; exact absurd hx (expected_not_syntax db _ cat hidden x)
 
 /-- **Undecodable text ⇒ `broken-encoding`** (and only then) -/
 theorem broken_encoding_iff (db : CodecDB) (hl : Latin1OK db) (b : Bytes) :
